@@ -48,7 +48,10 @@ def collection_roots(fn, flow, operand, depth=0):
 
 
 def _aliases(fn, local):
+    """locals that alias the collection created in `local`: copies, moves and borrows of it, and borrows of the field of an
+    aggregate it was moved into (`let c = Ctx { bindings: v }; c.bindings.push(..)`)"""
     al = {local}
+    held = set()        # (aggregate local, field name) holding the collection
     changed = True
     while changed:
         changed = False
@@ -61,9 +64,22 @@ def _aliases(fn, local):
                 src = rv["pl"]
             elif rv["k"] in ("use", "cast") and rv["op"].get("k") in ("copy", "move"):
                 src = rv["op"]["pl"]
-            if src and src["l"] in al and all(e == "*" for e in src["p"]) and s["lhs"]["l"] not in al:
-                al.add(s["lhs"]["l"])
-                changed = True
+            elif rv["k"] == "agg" and rv.get("agg") == "adt" and rv.get("fields"):
+                for fld, op in zip(rv["fields"], rv["ops"]):
+                    if op.get("k") in ("copy", "move") and op["pl"]["l"] in al and not op["pl"]["p"] and (s["lhs"]["l"], fld) not in held:
+                        held.add((s["lhs"]["l"], fld))
+                        changed = True
+            if src and s["lhs"]["l"] not in al:
+                flds = [e["n"] for e in src["p"] if isinstance(e, dict) and "f" in e]
+                if (src["l"] in al and not flds) or (len(flds) == 1 and (src["l"], flds[0]) in held):
+                    al.add(s["lhs"]["l"])
+                    changed = True
+                elif not flds and any(h[0] == src["l"] for h in held):
+                    # a copy / move / borrow of the whole aggregate holds the collection in the same field
+                    for h in list(held):
+                        if h[0] == src["l"] and (s["lhs"]["l"], h[1]) not in held:
+                            held.add((s["lhs"]["l"], h[1]))
+                            changed = True
     return al
 
 
